@@ -109,6 +109,7 @@ def dominates(p, q):
 def run(ctx):
     import logging
     import random as pyrandom
+    import numpy as np
     import artap.operators as ops
     import artap.algorithm_NSGAII as mod_nsga
     from artap.problem import Problem
@@ -150,8 +151,20 @@ def run(ctx):
                 y = float(round(sum(abs(v - k) for v in x)))
             else:                                   # "mixed": conflicting objectives
                 y = (x[0] - k) ** 2 + (sum(x[1:]) if k % 2 == 0 else -sum(x[1:]))
-            out.append(y)
+            # objective magnitude (red-team round 5): offset + factor * y, per objective; (0, 1) = the plain family
+            off, mul = cfg["scale"][k]
+            out.append(off + mul * y)
         return out
+
+    def resigned(cfg, ind):
+        """Signed costs of a recorded design recomputed by the harness from its recorded raw costs: sign * (cost rounded to
+        7 decimals), sign = -1 for a maximised objective; the infeasibility marker is the recorded one (the scripted problems
+        are unconstrained).  None if the design carries no complete cost list."""
+        raw = list(ind.costs)
+        if len(raw) != cfg["nobj"] or len(ind.costs_signed) != cfg["nobj"] + 1:
+            return None
+        return [(-1 if k in cfg["maximize"] else 1) * float(np.round(float(raw[k]), decimals=7)) for k in range(cfg["nobj"])] + \
+               [bool(ind.costs_signed[-1])]
 
     # ---------------- recording ----------------
     class Rec:
@@ -345,7 +358,7 @@ def run(ctx):
     def fail(what, cfg, clause, **kw):
         if len(ctx.oracle_failures) < 40:
             inp = {k: cfg[k] for k in ("algo", "N", "G", "nobj", "family", "bounds", "precision", "maximize", "fail_at", "seed",
-                                       "prob_cross", "prob_mutation")}
+                                       "prob_cross", "prob_mutation", "scale")}
             inp.update(kw)
             ctx.oracle_failures.append({"what": what, "input": inp,
                                         "match": {"kind": "run", "algo": cfg["algo"], "clause": clause}})
@@ -379,22 +392,34 @@ def run(ctx):
                 prev, nxt = pops[t], pops[t + 1]
                 kept = set(tuple(i.vector) for i in nxt)
                 dropped = [d for d in prev if tuple(d.vector) not in kept]
-                for d in dropped:
-                    for s in nxt:
-                        if dominates(list(d.costs_signed), list(s.costs_signed)):
-                            fail("generation %d keeps a design dominated by a dropped design of generation %d" % (t + 1, t), cfg,
-                                 "elitism", dropped=dict(vector=list(d.vector), costs=[float(c) for c in d.costs_signed]),
-                                 survivor=dict(vector=list(s.vector), costs=[float(c) for c in s.costs_signed]))
-                            break
-                    else:
+                # twice: on the implementation's costs_signed, and on signed costs recomputed by the harness from the recorded
+                # raw costs (sign * round(cost, 7 decimals)): the latter does not trust the implementation's rounding
+                for how, sc in (("recorded signed costs", lambda i: list(i.costs_signed)),
+                                ("signed costs recomputed from the recorded costs, 7 decimals", lambda i: resigned(cfg, i))):
+                    if any(sc(i) is None for i in list(prev) + list(nxt)):
                         continue
-                    break
-                if cfg["nobj"] == 1 and prev and nxt:
-                    bp = min(float(i.costs_signed[0]) for i in prev)
-                    bn = min(float(i.costs_signed[0]) for i in nxt)
-                    if bn > bp:
-                        fail("single objective: best cost of generation %d is %r, worse than %r of generation %d" % (t + 1, bn, bp, t),
-                             cfg, "best_monotone")
+                    found = False
+                    for d in dropped:
+                        for s in nxt:
+                            if dominates(sc(d), sc(s)):
+                                fail("generation %d keeps a design dominated by a dropped design of generation %d (%s)" % (t + 1, t, how),
+                                     cfg, "elitism", generation=t + 1,
+                                     dropped=dict(vector=list(d.vector), raw_costs=[float(c) for c in d.costs],
+                                                  costs=[float(c) for c in sc(d)]),
+                                     survivor=dict(vector=list(s.vector), raw_costs=[float(c) for c in s.costs],
+                                                   costs=[float(c) for c in sc(s)]))
+                                found = True
+                                break
+                        if found:
+                            break
+                    if cfg["nobj"] == 1 and prev and nxt:
+                        bp = min(float(sc(i)[0]) for i in prev)
+                        bn = min(float(sc(i)[0]) for i in nxt)
+                        if bn > bp:
+                            fail("single objective: best cost of generation %d is %r, worse than %r of generation %d (%s)"
+                                 % (t + 1, bn, bp, t, how), cfg, "best_monotone", generation=t + 1)
+                    if found:
+                        break
             # every transition: recorded next generation = the real selector applied to offspring + parents
             for k in range(1, len(rec.batches)):
                 t = k          # parents = generation k, next = generation k + 1
@@ -455,6 +480,18 @@ def run(ctx):
                    maximize=[k for k in range(nobj) if rng.random() < 0.25],
                    prob_cross=rng.choice([1.0, 0.9, 0.5, 0.3]), prob_mutation=rng.choice([0.2, 0.5, 1.0]),
                    fail_at=[])
+        # objective magnitudes: (offset, factor) per objective.  Large offsets with small factors make designs differ only far
+        # behind the leading digits (near-ties for any rounding coarser than 7 decimals), tiny factors put the whole objective
+        # near the 7th decimal (ties after the rounding of the unchanged code), "each" mixes the magnitudes between objectives
+        SCALES = [(0.0, 1.0), (1e6, 1.0), (1e6, 1e3), (1e6, 1e-3), (-1e6, 1.0), (1e9, 1.0), (1e3, 1e-2), (0.0, 1e-6), (0.0, 1e-3),
+                  (0.0, 1e6), (1e-6, 1e-6)]
+        mode = rng.choice(["unit", "unit", "one", "one", "each"])
+        if mode == "unit":
+            cfg["scale"] = [(0.0, 1.0)] * nobj
+        elif mode == "one":
+            cfg["scale"] = [rng.choice(SCALES[1:])] * nobj
+        else:
+            cfg["scale"] = [rng.choice(SCALES) for _ in range(nobj)]
         if with_fail:
             total = N * (G + 1) * 2
             k = rng.choice([1, 2, 3, 5])
@@ -520,7 +557,8 @@ def run(ctx):
         m["observed_generations"] = [(t, len(v)) for t, v in obs[0]]
         m["successful_calls"], m["failed_calls"] = obs[2], obs[3]
         meta.append(m)
-        ctx.count((cfg["algo"], cfg["N"], cfg["G"], cfg["nobj"], cfg["seed"], tuple(cfg["fail_at"]), cfg["family"]), nontrivial=True)
+        ctx.count((cfg["algo"], cfg["N"], cfg["G"], cfg["nobj"], cfg["seed"], tuple(cfg["fail_at"]), cfg["family"],
+                   tuple(cfg["scale"])), nontrivial=True)
         if len(ctx.samples) < 3 and cfg["fail_at"] and cfg["G"] >= 2:
             ctx.sample(m)
 
@@ -603,7 +641,8 @@ def run(ctx):
 
     ctx.coq_compare("c09", HEADER, "c09_case", "c09_obs", "c09_run", "c09_obs_eqb", cases, expected, meta, shard=ctx.pick(60, 150))
     ctx.rule = ("one case = one real run of NSGAII / EpsMOEA / OMOPSO / SMPSO (N in %r, G in %r, 1..3 objectives, three objective "
-                "families incl. a coarse one with many ties, grid-rounded or continuous initial vectors, minimise/maximise, with and "
+                "families incl. a coarse one with many ties, objective magnitudes offset + factor * f per objective (offsets 0, 1e-6, "
+                "1e3, +-1e6, 1e9, factors 1e-6 .. 1e6, equal or mixed between the objectives), grid-rounded or continuous initial vectors, minimise/maximise, with and "
                 "without scripted TimeoutError/RuntimeError on chosen call numbers, runs of up to 4 consecutive failures) or one "
                 "pop_acceptance step on a random population from small cost/vector grids; distinct = distinct "
                 "(algorithm, N, G, objectives, seed, schedule) resp. (population, offspring, choice); acceptance steps on a "
